@@ -303,7 +303,6 @@ func init() {
 			th.fatal("sync: unlock of unlocked mutex")
 		}
 		s.locked = false
-		th.schedPoint(nil, "Mutex.Unlock")
 		return nil
 	})
 	reg("(*sync.RWMutex).Lock", func(th *Thread, fr *frame, fn *ssa.Function, args []Value) Value {
@@ -318,7 +317,6 @@ func init() {
 			th.fatal("sync: Unlock of unlocked RWMutex")
 		}
 		s.locked = false
-		th.schedPoint(nil, "RWMutex.Unlock")
 		return nil
 	})
 	reg("(*sync.RWMutex).RLock", func(th *Thread, fr *frame, fn *ssa.Function, args []Value) Value {
@@ -333,7 +331,6 @@ func init() {
 			th.fatal("sync: RUnlock of unlocked RWMutex")
 		}
 		s.readers--
-		th.schedPoint(nil, "RWMutex.RUnlock")
 		return nil
 	})
 	reg("(*sync.WaitGroup).Add", func(th *Thread, fr *frame, fn *ssa.Function, args []Value) Value {
@@ -342,7 +339,6 @@ func init() {
 		if s.counter < 0 {
 			th.goPanicStr("sync: negative WaitGroup counter")
 		}
-		th.schedPoint(nil, "WaitGroup.Add")
 		return nil
 	})
 	reg("(*sync.WaitGroup).Done", func(th *Thread, fr *frame, fn *ssa.Function, args []Value) Value {
@@ -351,7 +347,6 @@ func init() {
 		if s.counter < 0 {
 			th.goPanicStr("sync: negative WaitGroup counter")
 		}
-		th.schedPoint(nil, "WaitGroup.Done")
 		return nil
 	})
 	reg("(*sync.WaitGroup).Wait", func(th *Thread, fr *frame, fn *ssa.Function, args []Value) Value {
@@ -900,6 +895,22 @@ func init() {
 		},
 		"verifYield": func(th *Thread, fr *frame, fn *ssa.Function, args []Value) Value {
 			th.schedPoint(nil, "yield")
+			return nil
+		},
+		// verifQuiesce(): the harness thread waits until no other thread can run.
+		"verifQuiesce": func(th *Thread, fr *frame, fn *ssa.Function, args []Value) Value {
+			p := th.p
+			th.schedPoint(func() bool {
+				for _, t := range p.threads {
+					if t == th || t.done {
+						continue
+					}
+					if t.ready == nil || t.completed != nil || t.ready() {
+						return false
+					}
+				}
+				return true
+			}, "quiesce")
 			return nil
 		},
 		"verifPanics": func(th *Thread, fr *frame, fn *ssa.Function, args []Value) Value {
